@@ -15,6 +15,15 @@ import sys
 
 import probe_rules as pr
 
+
+def reset_serial():
+    "Hook: restart the node-hash counter so that a tableau's tie-break order does not depend on earlier jobs in this process."
+    try:
+        from pytableaux.proof import common
+        common._verif_serial[0] = 0
+    except Exception:
+        pass
+
 ACCESS_RULES = {'Reflexive', 'Transitive', 'Symmetric', 'Serial'}
 
 
@@ -105,6 +114,7 @@ def main():
         opts = dict(job.get('opts') or {})
         res = dict(logic=logic.Meta.name, id=job.get('id'))
         try:
+            reset_serial()
             tab = Tableau(logic, arg, **opts)
             b0 = tab[0]
             trunk_nodes = [coq_node(n) for n in b0]
